@@ -77,6 +77,7 @@ pub fn outcome(id: &str, case: &BookCase) -> Outcome {
         Ok((feat, res)) => {
             let mut classes = feat.classes();
             classes.push(("ops_executed", feat.ops_executed));
+            classes.push(("ops_after_which_no_market_data_getter_was_called", feat.quiet_ops));
             classes.push(("ops_skipped_no_target", feat.ops_skipped));
             classes.push(("states_audited", feat.states_audited));
             classes.push(("trades", feat.trades));
@@ -112,7 +113,7 @@ pub fn outcome(id: &str, case: &BookCase) -> Outcome {
 }
 
 fn case_of(ops: Vec<Op>, tie: bool, trading: bool, levels: usize) -> BookCase {
-    BookCase { tick: TICK, levels, trading, t0: 0, tie, ops, drain: true }
+    BookCase { tick: TICK, levels, trading, t0: 0, tie, ops, drain: true, quiet: 0 }
 }
 
 fn random_part(name: &str, cfg: GenCfg, cases: u64) -> Part<Case> {
@@ -260,7 +261,7 @@ fn exhaustive_level_counts(name: &str) -> Part<Case> {
                     3 => Op::CreatePlace { bid: agg_bid, vol: half, trader: 9, price: None },
                     _ => Op::CreatePlace { bid: agg_bid, vol: all, trader: 9, price: Some(level((n - 1) / 2)) },
                 });
-                Some(Case::Book(BookCase { tick: TICK, levels: 10, trading: true, t0: 0, tie: false, ops, drain: true }))
+                Some(Case::Book(BookCase { tick: TICK, levels: 10, trading: true, t0: 0, tie: false, ops, drain: true, quiet: 0 }))
             }),
             description: "every number n in 1..=160 of occupied price levels on the passive side (1 or 2 orders per level) x aggressor side x 5 aggressors (market for everything, limit through the last level for more than everything, limit for all but one unit, market for the nearer half, limit for everything priced at the middle level), LEVELS 10, then the drain probe".to_string(),
         },
